@@ -6,7 +6,7 @@ B="${1:-30}"; shift
 IDS="$*"
 [ -z "$IDS" ] && IDS=$(ls seeded | grep -E '^C[0-9]+-[a-z]$')
 for id in $IDS; do
-  props=$(/venv/bin/python -c "import json;m=json.load(open('seeded/$id/meta.json'));print(','.join(sorted(set([m['breaks_property']]+m.get('caught_by',[])))))")
+  props=$(/venv/bin/python -c "import json;m=json.load(open('seeded/$id/meta.json'));b=m['breaks_property'];print(','.join([b]+sorted(set(m.get('caught_by',[]))-{b})))")
   echo "== $id props=$props"
   /venv/bin/python tools/seeded.py "$id" --from /nonexistent --budget "$B" --props "$props" --no-tests 2>&1 | grep -E "demo:|check |caught by|PATCH|refusing|WARNING|apply failed" | cut -c1-260
 done
